@@ -247,14 +247,17 @@ def _atheris_campaign(prop_id, seed, runs, size):
 # ---------------------------------------------------------------------------
 # shrinking: bounded delta debugging over the case bytes
 
-def ddmin(data, pred, budget):
+def ddmin(data, pred, budget, seconds=None):
     """Smallest byte string found (by chunk removal, then zeroing) for which
-    pred() still holds.  Bounded by ``budget`` predicate evaluations."""
+    pred() still holds.  Bounded by ``budget`` predicate evaluations and, for
+    properties whose cases are long runs, by ``seconds`` of wall time (running
+    out of either only makes the reproduction less minimal)."""
     data = bytes(data).rstrip(b'\0')
     used = [0]
+    t0 = time.time()
 
     def ok(d):
-        if used[0] >= budget:
+        if used[0] >= budget or (seconds is not None and used[0] and time.time() - t0 > seconds):
             return False
         used[0] += 1
         try:
@@ -492,12 +495,13 @@ def main(argv=None):
 
     # 4. shrink each root cause (key) and write replays
     budget = 400 if tier == 'quick' else 3000
+    shrink_seconds = (20 if tier == 'quick' else 120) / max(1, min(8, len(found)))
     for key in sorted(found)[:8]:
         data, detail = found[key]
 
         def pred(d, key=key):
             return any(k == key for k, _ in prop.run_case(d).violations)
-        small = ddmin(data, pred, budget)
+        small = ddmin(data, pred, budget, shrink_seconds * 4 if len(found) == 1 else shrink_seconds * 2)
         r = prop.run_case(small)
         det = next((d for k, d in r.violations if k == key), detail)
         p = write_replay(prop_id, key, det, data=small, trace=r.trace)
